@@ -35,6 +35,10 @@ pub struct KeySpec {
     /// input column; output keys are then not unique).
     #[serde(default)]
     pub group_expr: Option<String>,
+    /// The key is output through an aggregate of itself (`max(k) AS alias ... GROUP BY k`): the
+    /// same values as a direct projection, but not a plain projection of a grouping column.
+    #[serde(default)]
+    pub select_agg: Option<String>,
 }
 
 #[derive(Serialize, Deserialize, Clone, Copy, Debug, PartialEq, Eq, Hash)]
@@ -145,7 +149,14 @@ impl QuerySpec {
             let items: Vec<String> = p.iter().map(|(e, a)| format!("{} AS {}", e, a)).collect();
             return format!("SELECT {} FROM {}{}", items.join(", "), self.from_clause(), self.where_clause());
         }
-        let mut items: Vec<String> = self.keys.iter().map(|k| format!("{} AS {}", k.expr, k.alias)).collect();
+        let mut items: Vec<String> = self
+            .keys
+            .iter()
+            .map(|k| match &k.select_agg {
+                Some(f) => format!("{}({}) AS {}", f, k.expr, k.alias),
+                None => format!("{} AS {}", k.expr, k.alias),
+            })
+            .collect();
         items.extend(self.aggs.iter().map(|a| format!("{} AS {}", a.sql(population), a.alias)));
         let mut s = format!("SELECT {} FROM {}{}", items.join(", "), self.from_clause(), self.where_clause());
         if !self.keys.is_empty() {
